@@ -65,5 +65,18 @@ CLAIMED.update({
         "technique": TECH,
     },
 })
+CLAIMED.update({
+    "C19": {
+        "text": "Props/C19.v proves decode(encode i) = i for every well-formed TOY instruction, the total decode table over all 65536 words "
+                "(opcodes 12-15 give NOP), literal conversion (decimal/hex), and for the assembler after tokenisation: instruction i at "
+                "address i, variables downward from the top of memory in declaration order with elements ascending, every label/variable "
+                "resolved (forward references, labels counted over the whole source), independence of the segment order, the exact "
+                "accepted/rejected directive shapes, typed error outcomes, and the help page's example programs by evaluation. Tied to "
+                "the code by comparing from_integer on all 2^16 words and generated sources pushed through the real tokenizer.",
+        "note": NOTE_COMMON + "pyparsing tokenisation is outside the model: the harness feeds the model the real tokenizer's output "
+                "through a fail-closed converter. Python's 4300-digit int() limit is part of the model (toy_value).",
+        "technique": TECH,
+    },
+})
 _PENDING = "check not built yet (model/theorems under construction); see DESIGN.md section 9"
 NOT_APPLICABLE = {f"C{i:02d}": _PENDING for i in range(1, 21) if f"C{i:02d}" not in CLAIMED}
